@@ -2000,6 +2000,8 @@ class TargetRegistry:
         self._op_auto_map = OrderedDict()  # op name to function that returns handler function
 
         self._register_builtin_ops()
+        for op_name, op_kwargs in _EXTENSION_OPS.items():
+            self.register_op(op_name, **op_kwargs)
 
         if register_default_types:
             self._register_default_types()
@@ -2188,6 +2190,10 @@ class TargetRegistry:
 
 
 _DEFAULT_SCOPE = ChainMap({})
+
+# operations added through the module-level register_op() ('assign',
+# 'delete', ...), so that registries created later (Glommer) know them too
+_EXTENSION_OPS = OrderedDict()
 
 
 def glom(target, spec, **kwargs):
@@ -2445,6 +2451,7 @@ def register_op(op_name, **kwargs):
     See TargetRegistry for more details.
     """
     _DEFAULT_SCOPE[TargetRegistry].register_op(op_name, **kwargs)
+    _EXTENSION_OPS[op_name] = kwargs
     return
 
 
